@@ -27,6 +27,14 @@ Lemma flat_map_snoc {X Y} (f : X -> list Y) (l : list X) (x : X) :
   flat_map f (l ++ [x]) = flat_map f l ++ f x.
 Proof. rewrite flat_map_app. cbn [flat_map]. rewrite app_nil_r. reflexivity. Qed.
 
+Lemma app_eq_len {X} (a b c d : list X) : length a = length c -> a ++ b = c ++ d -> a = c /\ b = d.
+Proof.
+  revert c. induction a as [|x a IH]; intros [|y c] Hl H; cbn in Hl; try discriminate.
+  - split; [reflexivity|exact H].
+  - cbn in H. injection H as Hx H. destruct (IH c) as (E1 & E2); [lia|exact H|].
+    subst. split; reflexivity.
+Qed.
+
 (* ---- values of a log ------------------------------------------------------------------ *)
 Lemma values_of_log_snoc log c :
   values_of_log (log ++ [c]) =
@@ -143,8 +151,8 @@ Proof.
   assert (Hl : (length (labels_post t) <= n)%nat).
   { apply (f_equal (@length nat)) in H. rewrite app_length, seq_length in H. lia. }
   replace n with (length (labels_post t) + (n - length (labels_post t)))%nat in H by lia.
-  rewrite seq_app in H. apply app_inv_head_length in H.
-  - exact H.
+  rewrite seq_app in H. apply app_eq_len in H.
+  - destruct H as (H & _). exact H.
   - rewrite seq_length. reflexivity.
 Qed.
 
